@@ -323,28 +323,69 @@ func checkC04(p *Program, r *Result) {
 		n := 0
 		var keeps []*bform
 		var keepPos token.Pos
-		ast.Inspect(fd.Body, func(nd ast.Node) bool {
-			cc, ok := nd.(*ast.CaseClause)
-			if !ok || len(cc.List) != 1 || !strings.HasSuffix(types.ExprString(cc.List[0]), "TokenChunkIndex") {
-				return true
-			}
-			ast.Inspect(cc, func(m ast.Node) bool {
-				as, ok := m.(*ast.AssignStmt)
-				if !ok || len(as.Lhs) != 1 || len(as.Rhs) != 1 {
-					return true
+		// the summary pass and the unexported methods of the iterator it calls (the token switch, or the arm's work, may
+		// have been moved into one of them)
+		hosts := []*ast.FuncDecl{fd}
+		seenHost := map[*ast.FuncDecl]bool{fd: true}
+		for i := 0; i < len(hosts) && i < 10; i++ {
+			ast.Inspect(hosts[i].Body, func(nd ast.Node) bool {
+				if ce, ok := nd.(*ast.CallExpr); ok {
+					if fn := g.calleeOf(ce); fn != nil && !fn.Exported() {
+						if hd := g.decls[fn]; hd != nil && hd.Body != nil && hd.Recv != nil && !seenHost[hd] && recvTypeName(g, hd) == "indexedMessageIterator" {
+							seenHost[hd] = true
+							hosts = append(hosts, hd)
+						}
+					}
 				}
-				ce, ok := as.Rhs[0].(*ast.CallExpr)
-				if !ok || !g.isBuiltin(ce, "append") || !strings.HasSuffix(types.ExprString(as.Lhs[0]), ".chunkIndexes") {
-					return true
-				}
-				n++
-				k, _ := pathCondition(fc, cc.Body, as)
-				keeps = append(keeps, k)
-				keepPos = as.Pos()
 				return true
 			})
-			return false
-		})
+		}
+		isKeep := func(m ast.Node) *ast.AssignStmt {
+			as, ok := m.(*ast.AssignStmt)
+			if !ok || len(as.Lhs) != 1 || len(as.Rhs) != 1 {
+				return nil
+			}
+			ce, ok := as.Rhs[0].(*ast.CallExpr)
+			if !ok || !g.isBuiltin(ce, "append") || ce.Ellipsis.IsValid() || !strings.HasSuffix(types.ExprString(as.Lhs[0]), ".chunkIndexes") {
+				return nil
+			}
+			return as
+		}
+		for _, host := range hosts {
+			ast.Inspect(host.Body, func(nd ast.Node) bool {
+				cc, ok := nd.(*ast.CaseClause)
+				if !ok || len(cc.List) != 1 || !strings.HasSuffix(types.ExprString(cc.List[0]), "TokenChunkIndex") {
+					return true
+				}
+				ast.Inspect(cc, func(m ast.Node) bool {
+					if as := isKeep(m); as != nil {
+						n++
+						k, _ := pathCondition(fc, cc.Body, as)
+						keeps = append(keeps, k)
+						keepPos = as.Pos()
+						return true
+					}
+					// the arm hands the record to a method that parses and keeps it
+					if ce, ok := m.(*ast.CallExpr); ok {
+						if fn := g.calleeOf(ce); fn != nil && !fn.Exported() {
+							if hd := g.decls[fn]; hd != nil && hd.Body != nil && hd.Recv != nil && recvTypeName(g, hd) == "indexedMessageIterator" {
+								ast.Inspect(hd.Body, func(q ast.Node) bool {
+									if as := isKeep(q); as != nil {
+										n++
+										k, _ := pathCondition(fc, hd.Body.List, as)
+										keeps = append(keeps, k)
+										keepPos = as.Pos()
+									}
+									return true
+								})
+							}
+						}
+					}
+					return true
+				})
+				return false
+			})
+		}
 		if n > 0 {
 			// a chunk is kept if any of the append sites is reached; conditions over anything but the chunk's
 			// time range and the window (topic selection, presence of message indexes) are not constrained here
